@@ -15,7 +15,6 @@ COMPILE_PHASE_NAMES = {
     '_compile': 'class-creation phase: MetaPacket -> builder -> field._compile',
     '_compile_impl': 'class-creation phase',
     '_describe_yourself': 'class-creation phase',
-    '_lets_find_a_nice_default': 'called from Ref.__init__ only',
     'repeated': 'declaration-time modifier: builds a Sequence',
     'when': 'declaration-time modifier: builds an Optional',
     'at': 'declaration-time modifier: records the move on the field being declared',
@@ -76,7 +75,35 @@ def phase_of(repo, fi):
     last = fi.qual.split('.')[-1]
     if last in COMPILE_PHASE_NAMES and fi.cls is not None and fi.qual == fi.cls.qual + '.' + last:
         return 'compile', COMPILE_PHASE_NAMES[last]
+    if fi.cls is not None and fi.qual == fi.cls.qual + '.' + last and called_only_from_constructors(repo, fi.cls, last):
+        return 'compile', 'helper called only from __init__ of its class (constructs the object)'
     return 'run', 'run-time module function not listed as declaration / class-creation code'
+
+
+_CO = {}
+
+
+def called_only_from_constructors(repo, ci, name):
+    idx = _CO.get(id(repo))
+    if idx is None:
+        idx = {}
+        for other in repo.functions.values():
+            caller = other.qual.split('.')[-1]
+            for n in ast.walk(other.node):
+                if isinstance(n, ast.Attribute):
+                    d = idx.setdefault(n.attr, {'refs': 0, 'calls': 0, 'callers': set()})
+                    d['refs'] += 1
+                if isinstance(n, ast.Call) and isinstance(n.func, ast.Attribute):
+                    d = idx.setdefault(n.func.attr, {'refs': 0, 'calls': 0, 'callers': set()})
+                    d['calls'] += 1
+                    d['callers'].add(caller)
+        _CO.clear()
+        _CO[id(repo)] = idx
+    d = idx.get(name)
+    if not d:
+        return False
+    # a method *value* (self.x = self._name) is a reference that is not a call: stays run-time
+    return d['calls'] > 0 and d['refs'] == d['calls'] and all(c in ('__init__', '__new__') for c in d['callers'])
 
 
 def self_role(repo, fi):
